@@ -86,9 +86,22 @@ func fieldOfRecord(ff *core.FuncFacts, v ssa.Value, field string) bool {
 	})
 }
 
+// priceValue: the market price — perpetual: GetAssetPrice of the position's *trading*
+// asset; leveragelp: the LP token price of the amm pool.
 func priceValue(ff *core.FuncFacts, v ssa.Value) bool {
 	return originsAll(ff, v, func(o core.Origin) bool {
-		return isCallOrigin(o, "x/perpetual/keeper.Keeper.GetAssetPrice", "#0") || isCallOrigin(o, "x/amm/types.Pool.LpTokenPrice", "#0")
+		if isCallOrigin(o, "x/amm/types.Pool.LpTokenPrice", "#0") {
+			return true
+		}
+		if !isCallOrigin(o, "x/perpetual/keeper.Keeper.GetAssetPrice", "#0") {
+			return false
+		}
+		call, _ := o.Val.(*ssa.Call)
+		if call == nil {
+			return false
+		}
+		args := call.Common().Args
+		return len(args) > 0 && fieldOfRecord(ff, args[len(args)-1], "TradingAsset")
 	})
 }
 
@@ -239,6 +252,7 @@ func checkC10(P *core.Program, R *core.Report) {
 	}
 	checkOpenReach(P, R)
 	checkThirdPartyEntries(P, R)
+	checkHealthFresh(P, R)
 }
 
 func checkTriggerSite(P *core.Program, R *core.Report, ff *core.FuncFacts, site ssa.Instruction, caller, construct, pos, kind string) {
@@ -367,4 +381,97 @@ func checkThirdPartyEntries(P *core.Program, R *core.Report) {
 			}
 		}
 	}
+}
+
+// checkHealthFresh: the health compared by the guards must include interest accrued up to
+// now — perpetual: UpdateMTPBorrowInterestUnpaidLiability on the same MTP dominates
+// GetMTPHealth where the position already existed; leveragelp: GetPositionHealth reads the
+// debt through UpdateInterestAndGetDebt.
+func checkHealthFresh(P *core.Program, R *core.Report) {
+	const accrue = "x/perpetual/keeper.Keeper.UpdateMTPBorrowInterestUnpaidLiability"
+	for _, key := range []string{"x/perpetual/keeper.Keeper.CheckAndLiquidateUnhealthyPosition", "x/perpetual/keeper.Keeper.OpenConsolidate"} {
+		fn := P.Fn(key)
+		if fn == nil {
+			R.Add("C10-health-fresh", key, "function", "-", false, "unresolved anchor")
+			continue
+		}
+		ff := P.Facts(fn)
+		n := 0
+		for _, c := range core.Calls(fn) {
+			if !calleeMatches(P, c, "x/perpetual/keeper.Keeper.GetMTPHealth") {
+				continue
+			}
+			n++
+			ok := false
+			for _, d := range core.Calls(fn) {
+				if calleeMatches(P, d, accrue) && core.Dominates(d, c) {
+					// same MTP: the accrual's pointer argument and the health call's value argument
+					// have the same root origin
+					da := d.Common().Args
+					ha := c.Common().Args
+					if len(da) >= 3 && len(ha) >= 3 && sameRoot(ff, da[2], ha[2]) {
+						ok = true
+					}
+				}
+			}
+			R.Add("C10-health-fresh", key, "call GetMTPHealth", P.Pos(P.InstrPos(c)), ok,
+				"the health of an existing position must be computed after UpdateMTPBorrowInterestUnpaidLiability on the same MTP (otherwise accrued interest is ignored by the guard)")
+		}
+		if n == 0 {
+			R.Add("C10-health-fresh", key, "no GetMTPHealth call", P.Pos(fn.Pos()), false, "anchor changed")
+		}
+	}
+	key := "x/leveragelp/keeper.Keeper.GetPositionHealth"
+	if fn := P.Fn(key); fn != nil {
+		ff := P.Facts(fn)
+		ok := false
+		var at ssa.Instruction
+		for _, c := range core.Calls(fn) {
+			if strings.HasSuffix(P.CalleeKey(c.Common()), "StableStakeKeeper.UpdateInterestAndGetDebt") {
+				at = c
+			}
+		}
+		if at != nil {
+			ok = true
+			for _, e := range ff.Exits() {
+				if !core.Dominates(at, e.Instr) {
+					ok = false
+				}
+			}
+		}
+		R.Add("C10-health-fresh", key, "debt via UpdateInterestAndGetDebt", P.Pos(fn.Pos()), ok, "position health must be computed from the debt including interest accrued up to now")
+	} else {
+		R.Add("C10-health-fresh", key, "function", "-", false, "unresolved anchor")
+	}
+}
+
+// sameRoot: both values slice back to the same parameter / call result (ignoring paths).
+func sameRoot(ff *core.FuncFacts, a, b ssa.Value) bool {
+	oa, ob := ff.Origins(a), ff.Origins(b)
+	if len(oa) == 0 || len(ob) == 0 {
+		return false
+	}
+	for _, x := range oa {
+		found := false
+		for _, y := range ob {
+			if x.Val == y.Val {
+				found = true
+			}
+			// b is the result of a call that received a (e.g. the merged MTP returned by
+			// OpenConsolidateMergeMtp(ctx, existing, new))
+			if call, ok := y.Val.(*ssa.Call); ok && y.Kind == "call" {
+				for _, arg := range call.Common().Args {
+					for _, z := range ff.Origins(arg) {
+						if z.Val == x.Val {
+							found = true
+						}
+					}
+				}
+			}
+		}
+		if !found {
+			return false
+		}
+	}
+	return true
 }
